@@ -108,3 +108,10 @@ Example C07_trim_nonvacuous :
   length (TopDown.trim_model 0 TopDownTrimProofs.td_ex_G) = 3.
 Proof. vm_compute. repeat split. Qed.
 Print Assumptions C07_trim_nonvacuous.
+
+(* what the rule-list comparison of the correspondence run decides *)
+From GV.proofs Require CompareSpecs.
+Theorem C07_rule_list_comparison : forall (S : SR) (G1 G2 : grammar S),
+  TopDown.shape_eqb G1 G2 = true <-> map (fun r => (rhead r, rbody r)) G1 = map (fun r => (rhead r, rbody r)) G2.
+Proof. intros S G1 G2. exact (CompareSpecs.shape_eqb_spec S G1 G2). Qed.
+Print Assumptions C07_rule_list_comparison.
